@@ -16,9 +16,9 @@ class Runtime(RuntimeCheck):
 class Check(MacroCheck):
     prop = 'C16'
     theorems = ['C16_unmock_arm_spec', 'C16_no_function_no_arm', 'C16_unmock_arm_missing_for_mut', 'C16_runtime_unmock', 'C16_source_dispatch', 'C16_source_eval_result_dispatch', 'C16_source_respond']
-    case_prefixes = ('ref.unmock', 'mut.unmock', 'async.unmock')
+    case_prefixes = ('ref.unmock', 'mut.unmock', 'async.unmock', 'own.unmock', 'rc.unmock')
     runtime = Runtime()
-    facts_of_interest = r'(call unmock|arm Unmock|call report|arm any)'
+    facts_of_interest = r'(call unmock|arm \S*Unmock|call report|arm any)'
 
     def rule(self):
         return ("same bounded-exhaustive shape family as C05 with unmock_with in its three forms {none / `_`, path, path(listed "
